@@ -190,7 +190,10 @@ def run_case(c):
             viol.append(_v('C04/advisory-without-marker:' + c['role'], 'advisory note although the marker is absent', combo=combo))
     if flagged_cats - {'enc', 'mac'}:
         viol.append(_v('C04/flag-outside-enc-mac', 'a non cipher/MAC algorithm carries the Terrapin warning', cats=sorted(flagged_cats)))
-    bad_add = [(n, cat) for (n, cat) in recs_add if is_shape(n) and n not in enc and n not in mac]
+    k_all = script['kex']
+    anywhere = set(k_all['enc_cs']) | set(k_all['enc_sc']) | set(k_all['mac_cs']) | set(k_all['mac_sc'])
+    # "disabled by the operator" = advertised in neither direction (with asymmetric lists a name present in one direction only is not judged)
+    bad_add = [(n, cat) for (n, cat) in recs_add if is_shape(n) and n not in anywhere]
     if bad_add:
         viol.append(_v('C04/recommends-adding-terrapin-shape', 'an algorithm of ChaCha/CBC/ETM shape that is not advertised is recommended for addition', recs=bad_add[:5]))
     return {'violations': viol, 'counters': counters, 'nontrivial': True,
